@@ -69,7 +69,11 @@ Proof.
   unfold no_lf in Hp, Hl. rewrite Hp, Hl. reflexivity.
 Qed.
 
-Lemma do_lineprefix_unfold s p : do_lineprefix s p = py_join [10] (map (prefix_line p) (py_splitlines s)).
+(* what the translated filter is, in either state of /repo *)
+Lemma do_lineprefix_is : do_lineprefix = lineprefix_m lineprefix_keepends.
+Proof. reflexivity. Qed.
+
+Lemma do_lineprefix_unfold s p : lineprefix_legacy s p = py_join [10] (map (prefix_line p) (py_splitlines s)).
 Proof. reflexivity. Qed.
 
 Lemma Forall_prefix_no_lf p ls :
@@ -83,7 +87,7 @@ Qed.
 Theorem lineprefix_spec_lemma : forall (s p : str),
     forallb (fun c => negb (c =? 10)) p = true ->
     py_splitlines s <> [] ->
-    split_lf (do_lineprefix s p) = map (prefix_line p) (py_splitlines s).
+    split_lf (lineprefix_legacy s p) = map (prefix_line p) (py_splitlines s).
 Proof.
   intros s p Hp Hne. rewrite do_lineprefix_unfold. apply split_lf_join.
   - intro H. apply map_eq_nil in H. contradiction.
@@ -127,8 +131,54 @@ Qed.
 
 Theorem lineprefix_final_terminator : forall (s p : str) (b : N),
     s <> [] -> is_linebreak (last s 0) = false -> is_linebreak b = true ->
-    do_lineprefix (s ++ [b]) p = do_lineprefix s p.
+    lineprefix_legacy (s ++ [b]) p = lineprefix_legacy s p.
 Proof.
   intros s p b Hne Hl Hb. rewrite !do_lineprefix_unfold.
   rewrite (splitlines_final_n (length s) s b (le_n _) Hne Hl Hb). reflexivity.
 Qed.
+
+
+(* ------------------------------------------------------------------------------------------ *)
+(* the terminator-keeping shape (design_notes/C19_lineprefix_terminator_fix.patch)              *)
+(* ------------------------------------------------------------------------------------------ *)
+Lemma concat_cons_first c ls : concat (cons_first c ls) = c :: concat ls.
+Proof. destruct ls; reflexivity. Qed.
+
+Lemma join_nil_concat ls : py_join [] ls = concat ls.
+Proof.
+  induction ls as [|l ls IH]; [reflexivity|]. destruct ls as [|l2 ls]; [cbn; rewrite app_nil_r; reflexivity|].
+  change (py_join [] (l :: l2 :: ls)) with (l ++ [] ++ py_join [] (l2 :: ls)). rewrite IH. reflexivity.
+Qed.
+
+Lemma splitlines_keep_cons c s :
+  py_splitlines_keep (c :: s) =
+  if is_linebreak c then
+    match s with
+    | d :: s'' => if (c =? 13) && (d =? 10) then [c; d] :: py_splitlines_keep s'' else [c] :: py_splitlines_keep s
+    | [] => [[c]]
+    end
+  else cons_first c (py_splitlines_keep s).
+Proof. reflexivity. Qed.
+
+(* the lines with their terminators ARE the text: nothing is dropped, no terminator is rewritten *)
+Lemma splitlines_keep_concat_n : forall n s, (length s <= n)%nat -> concat (py_splitlines_keep s) = s.
+Proof.
+  induction n as [|n IH]; intros s Hn.
+  - destruct s; [reflexivity|cbn in Hn; lia].
+  - destruct s as [|c s]; [reflexivity|]. cbn in Hn. rewrite splitlines_keep_cons. destruct (is_linebreak c).
+    + destruct s as [|d s]; [reflexivity|]. destruct ((c =? 13) && (d =? 10)); cbn [concat app]; rewrite IH; (reflexivity || (cbn in *; lia)).
+    + rewrite concat_cons_first, IH; [reflexivity|lia].
+Qed.
+
+Theorem lineprefix_keep_text_preserved : forall s : str, lineprefix_keep s [] = s.
+Proof.
+  intros s. unfold lineprefix_keep. rewrite join_nil_concat.
+  replace (map (prefix_line_keep []) (py_splitlines_keep s)) with (py_splitlines_keep s).
+  - exact (splitlines_keep_concat_n (length s) s (le_n _)).
+  - symmetry. rewrite <- (map_id (py_splitlines_keep s)) at 2. apply map_ext. intros l. unfold prefix_line_keep. destruct (py_truthy _); reflexivity.
+Qed.
+
+(* the output is the concatenation of the input lines (terminators included), each preceded by the prefix iff its content is non-empty *)
+Theorem lineprefix_keep_spec : forall s p : str,
+    lineprefix_keep s p = concat (map (prefix_line_keep p) (py_splitlines_keep s)) /\ concat (py_splitlines_keep s) = s.
+Proof. intros s p. split; [unfold lineprefix_keep; apply join_nil_concat | exact (splitlines_keep_concat_n (length s) s (le_n _))]. Qed.
